@@ -7,6 +7,7 @@ mod cluster;
 mod life;
 mod mailbox;
 mod outport;
+mod pg;
 mod ratelim;
 mod registry;
 mod routing;
@@ -78,6 +79,7 @@ fn main() {
         "factory_pool" => worker::factory_pool(&args),
         "routing" => routing::run(&args),
         "outport" => outport::run(&args),
+        "pg" => pg::run(&args),
         "rpc" => rpc::run(&args),
         "timers" => timers::run(&args),
         "select_listen" => select::listen(&args),
